@@ -151,6 +151,7 @@ def run(rep, tier):
     rep.rule('R17.2', 'every operator of the property\'s set that an expr production constructs has an arm in evaluateExpr; every other constructed kind reaches the default arm that raises error.execution')
     rep.rule('R17.3', 'arity agreement: for each node kind, every arity a production constructs is handled by the evaluator arm without dereferencing more operands than exist')
     rep.rule('R17.4', 'operand order: no full-expression in the evaluators increments the operand iterator twice in unsequenced operands')
+    rep.rule('R17.6', 'operator table: the arm of each arithmetic / relational / bitwise operator applies exactly that C operator to operands of type int (signed: >> is arithmetic, / % and comparisons are signed), and the logical operators apply && / || / ! to booleans')
     rep.rule('R17.5', 'faults are errors: every integer / and % in evaluateExpr is unreachable with a zero divisor (zero test that throws dominates it); array index uses are guarded below and above')
     rep.assume('numeric results and struct/array read-back values are not decided')
     fb = facts.FactBase(TUS)
@@ -324,5 +325,49 @@ def run(rep, tier):
     rep.ok('R17.4', 'evaluators', '%d operator/call expressions inspected' % n_full)
 
     # ---- R17.5
+    # ---- R17.6
+    WANT = {'PML_PLUS': '+', 'PML_MINUS': '-', 'PML_TIMES': '*', 'PML_DIVIDE': '/', 'PML_MODULO': '%', 'PML_LSHIFT': '<<', 'PML_RSHIFT': '>>',
+            'PML_BITAND': '&', 'PML_BITOR': '|', 'PML_BITXOR': '^', 'PML_LT': '<', 'PML_LE': '<=', 'PML_GT': '>', 'PML_GE': '>=', 'PML_AND': '&&', 'PML_OR': '||'}
+    nops = 0
+    for kind, cop in sorted(WANT.items()):
+        if kind not in arm_of:
+            continue
+        a = arm_of[kind]
+        if len([x for x in a['names'] if x]) > 1:
+            continue            # shared arm (EQ/NE): not a one-operator arm
+        bins = []
+        for st in a['eff']:
+            for x in sub(st):
+                if x['k'] == 'BinaryOperator' and x.get('op') in set(WANT.values()) | {'==', '!='} and len(x.get('c', [])) == 2:
+                    ts = [((strip(k_) or {}).get('t') or '').replace('const ', '') for k_ in x['c']]
+                    # the operator that combines the two evaluated operands (not the zero test `right == 0`)
+                    if any(strip(k_)['k'] == 'IntegerLiteral' for k_ in x['c'] if strip(k_)):
+                        continue
+                    if x['op'] in ('==', '!=') and any(y['k'] == 'MemberExpr' for k_ in x['c'] for y in sub(k_)):
+                        continue
+                    bins.append((x, ts))
+        if not bins:
+            raise AnalysisBroken('evaluateExpr: no operator application found in the arm of %s' % kind)
+        nops += 1
+        x, ts = bins[-1]
+        logical = cop in ('&&', '||')
+        # + - * << give the same bits on unsigned operands (mod 2^32); signedness decides the result of >> / % < <= > >=
+        want_t = ('bool', '_Bool') if logical else ('int',) if cop in ('>>', '/', '%', '<', '<=', '>', '>=') else ('int', 'unsigned int')
+        # operands of integral promotions: look through the implicit casts clang inserts (bool -> int for &&/|| operands is not inserted)
+        raw = []
+        for k_ in x['c']:
+            y = k_
+            while y and y['k'] == 'ImplicitCastExpr' and y.get('ck') in ('IntegralCast', 'LValueToRValue', 'NoOp', 'IntegralToBoolean') and y.get('c'):
+                if y.get('ck') == 'IntegralCast':
+                    inner = strip(y['c'][0])
+                    raw.append(((inner or {}).get('t') or '').replace('const ', ''))
+                    break
+                y = y['c'][0]
+            else:
+                raw.append(((strip(k_) or {}).get('t') or '').replace('const ', ''))
+        ok = x['op'] == cop and all(t in want_t for t in raw)
+        rep.check(ok, 'R17.6', kind, locstr(x), 'the arm of %s applies `%s` to operands of type %s (expected `%s` on %s)' % (kind, x['op'], raw, cop, '/'.join(want_t)))
+    rep.minimum('R17.6', nops, 11, 'one-operator evaluator arms')
+
     check_divisions(rep, fb, 'R17.5')
     check_index_bounds(rep, fb, 'R17.5')
